@@ -38,12 +38,19 @@ func (prop) Parallel() int              { return 4 }
 func (prop) CaseTimeout() time.Duration { return 10 * time.Minute }
 
 func (prop) Generate(rng *rand.Rand, tier string) []corr.Case {
-	type shape struct{ nv, extra, batch int }
-	shapes := []shape{{4, 1, 4}, {1, 1, 3}, {5, 2, 6}, {3, 2, 4}, {7, 1, 7}, {4, 2, 5}}
+	// weights: "rand" = mostly 1, some 1..3; "heavy" = one heavy validator and light ones (the heavy one
+	// alone reaches the thresholds); "steps" = pairwise different weights 1,2,4,...; "large" = weights
+	// around 2^61 next to weight 1. Unequal weights are what separates "the weight of the validators
+	// flagged in an aggregate commit" from any other sum (see subsets.go).
+	type shape struct {
+		nv, extra, batch int
+		weights          string
+	}
+	shapes := []shape{{4, 1, 4, "heavy"}, {1, 1, 3, "rand"}, {5, 2, 6, "steps"}, {3, 2, 4, "rand"}, {7, 1, 7, "heavy"}, {4, 2, 5, "large"}}
 	rounds, blocks, probeEvery := 1, 20, 5
 	if tier == "thorough" {
 		rounds, blocks, probeEvery = 6, 60, 4
-		shapes = append(shapes, shape{9, 1, 10}, shape{2, 2, 4})
+		shapes = append(shapes, shape{9, 1, 10, "heavy"}, shape{2, 2, 4, "rand"})
 	}
 	now := nowUnix()
 	var cases []corr.Case
@@ -53,15 +60,34 @@ func (prop) Generate(rng *rand.Rand, tier string) []corr.Case {
 			c.genesisTS = now - 1_000_000
 			c.genesisTS -= c.genesisTS % c.blockTime
 			c.weights = make([]uint64, s.nv)
+			profile := s.weights
+			if r > 0 && r%2 == 0 {
+				profile = []string{"rand", "heavy", "steps", "large"}[rng.Intn(4)]
+			}
 			for i := range c.weights {
 				c.weights[i] = 1
-				if rng.Intn(5) == 0 {
-					c.weights[i] = uint64(1 + rng.Intn(3))
+				switch profile {
+				case "rand":
+					if rng.Intn(5) == 0 {
+						c.weights[i] = uint64(1 + rng.Intn(3))
+					}
+				case "steps":
+					c.weights[i] = 1 << uint(i)
+				case "large":
+					if i%2 == 0 {
+						c.weights[i] = 1<<61 + uint64(rng.Intn(1000))
+					}
 				}
+			}
+			if profile == "heavy" {
+				c.weights[rng.Intn(s.nv)] = uint64(2*s.nv + 2) // W = 3n+1, thresholds floor(2W/3)+1 = 2n+1: the heavy validator alone reaches them, the n-1 light ones together do not
+			}
+			if profile == "steps" {
+				rng.Shuffle(s.nv, func(a, b int) { c.weights[a], c.weights[b] = c.weights[b], c.weights[a] })
 			}
 			nb := blocks + 3*s.batch
 			ops, err := planCase(rng, c, nb, probeEvery)
-			tag := fmt.Sprintf("nv%d", s.nv)
+			tag := fmt.Sprintf("nv%d-%s", s.nv, profile)
 			if err != nil {
 				// the planner could not continue (an honest block was refused): keep what was planned
 				// and make the failure visible to the runner
